@@ -119,6 +119,23 @@ static void set_obs_path(void)
 			tmp ? tmp : td, loom, pid_, tid_);
 }
 
+/* The payload of an event may be handed over in several ovni_payload_add() calls of any sizes;
+ * the bytes in the stream are the concatenation.  Which split is used depends on k only. */
+static void add_payload(struct ovni_ev *ev, const uint8_t *p, int ps, int k)
+{
+	static const int split[6][3] = { {0, 0, 0}, {2, 4, 0}, {4, 8, 0}, {2, 4, 8}, {3, 4, 0}, {6, 4, 0} };
+	const int *sp = split[(unsigned) k % 6];
+	int off = 0;
+	for (int i = 0; i < 3 && sp[i] > 0; i++) {
+		if (off + sp[i] > ps || ps - off - sp[i] == 1)
+			break;		/* every call must add at least 2 bytes */
+		ovni_payload_add(ev, p + off, sp[i]);
+		off += sp[i];
+	}
+	if (off < ps)
+		ovni_payload_add(ev, p + off, ps - off);
+}
+
 static int hexval(int c)
 {
 	if (c >= '0' && c <= '9') return c - '0';
@@ -184,7 +201,7 @@ static int run_script(const char *script, const char *logpath)
 			if (ps > 0) {
 				uint8_t p[16];
 				fill(p, (uint32_t) ps, id);
-				ovni_payload_add(&ev, p, ps);
+				add_payload(&ev, p, ps, (int) id);
 			}
 			ovni_ev_emit(&ev);
 		} else if (!strcmp(op, "emitraw")) {
@@ -199,7 +216,7 @@ static int run_script(const char *script, const char *logpath)
 			for (size_t i = 0; hex[i] && hex[i + 1] && hex[0] != '-'; i += 2)
 				p[ps++] = (uint8_t) (hexval(hex[i]) * 16 + hexval(hex[i + 1]));
 			if (ps > 0)
-				ovni_payload_add(&ev, p, ps);
+				add_payload(&ev, p, ps, n);
 			ovni_ev_emit(&ev);
 		} else if (!strcmp(op, "jumbo")) {
 			char mcv[8];
